@@ -1,5 +1,6 @@
 /- Line protocol for C20 (see harness/src/bin/c20.rs):
    `c20 g<kind>.<seed> <nslots> <cursor0> <total0> <img0> <tasks> <sched> <resps>`
+   (request fields `extra,grp,op,off,len,ioff`)
    -> `adm=<0|1> idx=<first index per issue> f=<SwapState failures per task> t0=<op:hex[w<wkc>]|…> … img=<hex/hex/hex>`
    The recorded schedule is run through `Ec.Tasks.step` (the function the C20 theorems are about); the
    segment is the table of recorded responses in the order the segment processed the frames, a task's
@@ -16,6 +17,8 @@ structure DReq where
   op : Nat
   off : Nat
   len : Nat
+  /-- offset in the group's input image where the slice of this LRW chunk lands -/
+  ioff : Nat
 
 abbrev DResp := List Nat × Nat
 
@@ -23,8 +26,9 @@ def hexOrDash (l : List Nat) : String := if l.isEmpty then "-" else hexBytes l
 
 def parseReq (s : String) : DReq :=
   match splitOn s "," with
-  | [e, g, o, off, len] => ⟨nat! e, optNat g, nat! o, nat! off, nat! len⟩
-  | _ => ⟨0, none, 0, 0, 0⟩
+  | [e, g, o, off, len, ioff] => ⟨nat! e, optNat g, nat! o, nat! off, nat! len, nat! ioff⟩
+  | [e, g, o, off, len] => ⟨nat! e, optNat g, nat! o, nat! off, nat! len, 0⟩
+  | _ => ⟨0, none, 0, 0, 0, 0⟩
 
 def parseList (s : String) (sep : String) : List String := if s = "-" then [] else splitOn s sep
 
@@ -48,7 +52,8 @@ def mkSys (reqs : List (List DReq)) (resps : List DResp) : Sys DReq DResp Nat :=
     tasks := fun t h => (reqs.getD t [])[h.length]?,
     extra := fun rq => rq.extra,
     grp := fun rq => rq.grp,
-    inputs := fun rq rs _ => slice rq rs }
+    -- process_received_pdi_chunk: the chunk's input bytes overwrite their part of the image
+    inputs := fun rq rs old => old.take rq.ioff ++ slice rq rs ++ old.drop (rq.ioff + (slice rq rs).length) }
 
 /-- Per-operation results of one task: consecutive requests with the same operation number. -/
 def opTok (op : Nat) (d : List Nat) (w : Option Nat) : String :=
@@ -62,7 +67,11 @@ def opResults : List (DReq × DResp) → Option (Nat × List Nat × Option Nat) 
     match cur with
     | none => opResults rest (some (rq.op, slice rq rs, w)) acc
     | some (op, d, w0) =>
-      if op = rq.op then opResults rest (some (op, d ++ slice rq rs, if w.isSome then w else w0)) acc
+      if op = rq.op then opResults rest (some (op, d ++ slice rq rs,
+        match w, w0 with
+        | some a, some b => some (a + b)   -- tx_rx sums the working counters of the image chunks
+        | some a, none => some a
+        | none, x => x)) acc
       else opResults rest (some (rq.op, slice rq rs, w)) (opTok op d w0 :: acc)
 
 def handle (args : List String) : String :=
